@@ -196,6 +196,9 @@ class Agent(dbus.service.Object):
             return True
 
         for hdl in tuple(self._handlers):
+            if hdl._in_term:
+                # already on its way out, it closes when its transfers end
+                continue
             try:
                 hdl.terminate()
             except RuntimeError as err:
@@ -218,7 +221,8 @@ class Agent(dbus.service.Object):
             except:
                 pass
 
-        for hdl in self._handlers:
+        # (closing removes the handler from the list)
+        for hdl in tuple(self._handlers):
             hdl.close()
 
         if tuple(self.locations):
